@@ -179,15 +179,16 @@ example : c14Demo.dropStore.1.worker.queue = [] ∧ c14Demo.dropStore.1.worker.p
   decide
 
 /-- The history on which the first version of `Worker.fuel` fell short (30
-chunks closed, 29 removals postponed behind a failed sync, a good sync, one more
-purge, `drop` while parked at the `fdatasync` in front of the second removal
-request): with the corrected fuel the join completes all 33 unlinks. -/
+chunks closed, 29 removals postponed behind a failed sync, one more rotation and
+purge, `drop` while parked at the `fdatasync` of the next batch, the 29 removals
+still postponed): with the corrected fuel the join completes all 33 unlinks
+(the 29 postponed ones are retried right after that batch's good sync). -/
 def c14PostponedHistory : List Step :=
   ((List.range 30).map fun i => Step.call (.append [(⟨1, i⟩, [])])) ++
   [.workerIdle, .call (.purge ⟨1, 28⟩), .flush none] ++ List.replicate 6 (.worker .ok) ++
-  [.worker .eio, .flush none, .workerIdle, .call (.append [(⟨1, 30⟩, [])]),
+  [.worker .eio, .call (.append [(⟨1, 30⟩, [])]),
    .call (.purge ⟨1, 30⟩), .flush none] ++
-  List.replicate 9 (.worker .ok)
+  List.replicate 2 (.worker .ok)
 
 set_option maxRecDepth 100000 in
 example :
